@@ -33,6 +33,28 @@ Program genC15(Rand& R, int tier)
         }
         if (R.chance(15)) G.emit({"clearct", Gen::num(f)});
     }
+    if (R.chance(tier ? 12 : 6)) {
+        // a set too large to enumerate (up to ~10^17 members): a product of per-variable subsets over a domain
+        // of its own, checked against closed forms at sampled members / indexes (step `bigindex`)
+        const int K = R.range(6, 26);
+        Step b{"bigindex", R.chance(50) ? "1" : "0", Gen::num(K)};
+        std::vector<int> sz;
+        for (int k = 0; k < K; k++) { sz.push_back(R.range(2, 6)); b.push_back(Gen::num(sz.back())); }
+        int run = 0;      // (the conversion expands runs of skipped levels without caching: keep them short)
+        for (int k = 0; k < K; k++) {
+            unsigned full = (1u << sz[size_t(k)]) - 1, m;
+            int r = int(R.below(100));
+            if (r < 25 && run >= 4) r = 50;
+            run = (r < 25) ? run + 1 : 0;
+            if (r < 25) m = full;                                   // unconstrained: the level can be skipped
+            else if (r < 40) m = 1u << R.below(uint32_t(sz[size_t(k)]));     // one value
+            else { m = unsigned(R.bits()) & full; if (!m) m = 1; }
+            b.push_back(Gen::num(int(m)));
+        }
+        b.push_back(Gen::num(R.range(4, 24)));
+        b.push_back(Gen::num(int(R.below(1000000))));
+        G.emit(b);
+    }
     return G.P;
 }
 
